@@ -240,9 +240,12 @@ Definition requeue (ch : chan) (a : attempt) (status : Z) (c : choices) : outcom
   let err := if status =? ARES_SUCCESS then at_err a else status in
   let try' := at_try a + 1 in
   if requeue_sends ch a then send_fresh ch (at_label a) try' err c
+  else if at_probe a then
+    (* the probe ends: server_probe_cb clears probe_pending of the probed server
+       (fixes/C09-probe-pending-clear.patch; end_query(channel, NULL, ...) alone did not) *)
+    Ok (set_servers ch (clear_probe (at_server a) (ch_servers ch)), [])
   else
-    (* end_query(channel, NULL, ...): probe_pending of the probed server is NOT cleared *)
-    Ok (ch, if at_probe a then [] else [ODone (at_label a) (if err =? ARES_SUCCESS then ARES_ETIMEOUT else err)]).
+    Ok (ch, [ODone (at_label a) (if err =? ARES_SUCCESS then ARES_ETIMEOUT else err)]).
 
 Fixpoint remove_attempt (label : nat) (l : list attempt) : list attempt :=
   match l with
@@ -348,12 +351,20 @@ Fixpoint remove_stale_pinned (ch : chan) (stale : list server) (cs : list choice
     Ok (fst y, snd x ++ snd y)
   end.
 
+Fixpoint insert_by_label (a : attempt) (l : list attempt) : list attempt :=
+  match l with
+  | [] => [a]
+  | x :: r => if Nat.leb (at_label a) (at_label x) then a :: l else x :: insert_by_label a r
+  end.
+Definition sort_by_label (l : list attempt) : list attempt := fold_right insert_by_label [] l.
+
 Inductive event :=
 | EvSend (c : choices)                   (* a new user query (ares_send_dnsrec / ares_query) *)
 | EvAnswer (label : nat)                 (* the attempt in flight of query [label] is answered NOERROR *)
 | EvRefuse (label : nat) (status : Z) (c : choices)  (* ... answered SERVFAIL / REFUSED / NOTIMP *)
 | EvTimeout (label : nat) (c : choices)  (* ... times out *)
 | EvAdvance (ms : Z)                     (* the clock moves *)
+| EvCancel                               (* ares_cancel *)
 | EvSetServers (addrs : list Z) (cs : list choices).
                                          (* ares_set_servers_*(); [cs]: draws of the re-queued attempts *)
 
@@ -390,6 +401,14 @@ Definition step (ch : chan) (ev : event) : outcome (chan * list obs) :=
     Ok ({| ch_servers := ch_servers ch; ch_rotate := ch_rotate ch; ch_tries := ch_tries ch;
            ch_chance := ch_chance ch; ch_delay := ch_delay ch; ch_now := t;
            ch_inflight := ch_inflight ch; ch_next_label := ch_next_label ch |}, [])
+  | EvCancel =>
+    (* every query ends with ARES_ECANCELLED in the order of channel->all_queries (creation
+       order); a cancelled probe clears probe_pending of its server (server_probe_cb) *)
+    let l := fold_left (fun acc a => if at_probe a then clear_probe (at_server a) acc else acc)
+                       (ch_inflight ch) (ch_servers ch) in
+    Ok (set_inflight (set_servers ch l) [],
+        map (fun a => ODone (at_label a) ARES_ECANCELLED)
+            (sort_by_label (filter (fun a => negb (at_probe a)) (ch_inflight ch))))
   | EvSetServers addrs cs =>
     (* with fixes/C09-stale-servers-unlink-first.patch: all stale servers are unlinked first,
        then destroyed (connections closed, their queries re-queued) in list order *)
@@ -503,3 +522,32 @@ Fixpoint mon_run (m : monitor) (l : list obs) : option monitor :=
 
 Definition mon_init (addrs : list Z) (rotate : bool) : monitor :=
   {| m_rotate := rotate; m_servers := mon_build [] (dedup [] addrs) 0 |}.
+
+(* ------------------------------------------------------------------------------------ *)
+(* Second monitor: an attempt that is due is actually made.  A user query may end with a   *)
+(* failure status only when its retry budget (configured servers x tries) is used up:      *)
+(* the number of transmissions made for it is at least that budget.  In particular a query *)
+(* never ends with ARES_ENOSERVER, or without any transmission, while servers are          *)
+(* configured.  (Cancellation and destruction are the application's doing and exempt.)      *)
+(* ------------------------------------------------------------------------------------ *)
+Record budget_mon := { b_tries : Z; b_nsrv : nat; b_txs : list nat }.
+
+Definition bmon_step (b : budget_mon) (o : obs) : option budget_mon :=
+  match o with
+  | OTx l _ false => Some {| b_tries := b_tries b; b_nsrv := b_nsrv b; b_txs := l :: b_txs b |}
+  | OServers addrs => Some {| b_tries := b_tries b; b_nsrv := length (dedup [] addrs); b_txs := b_txs b |}
+  | ODone l st =>
+    if (st =? ARES_SUCCESS) || (st =? ARES_ECANCELLED) || (st =? ARES_EDESTRUCTION) then Some b
+    else if Z.of_nat (b_nsrv b) * b_tries b <=? Z.of_nat (count_occ Nat.eq_dec (b_txs b) l) then Some b
+    else None
+  | _ => Some b
+  end.
+
+Fixpoint bmon_run (b : budget_mon) (l : list obs) : option budget_mon :=
+  match l with
+  | [] => Some b
+  | o :: r => match bmon_step b o with Some b' => bmon_run b' r | None => None end
+  end.
+
+Definition bmon_init (addrs : list Z) (tries : Z) : budget_mon :=
+  {| b_tries := tries; b_nsrv := length (dedup [] addrs); b_txs := [] |}.
